@@ -326,3 +326,24 @@ def fut03_programs(tier):
             sub = fp.fail_slots(ds) if is_try else ()
             progs.append(Prog("%s/fut03/%s" % (mac, fp.pname(ds)), rb, mb, [[0]] if is_try else fp.offset_rows(), "TryAsync" if is_try else "ProjSteps", meta={"macro": mac, "dsl": d, "ref": r}, sub=sub))
     return progs
+
+
+def transpose_on_non_try_programs():
+    """`transpose_results(..)` is an option of the TRY macros' step handling; written on a non-try macro (alone or next to
+    `lazy_branches`) it is accepted and changes nothing: Option- / Result- / int-valued branches, one to three steps"""
+    from . import dsl
+    progs = []
+    for mac in ("join", "join_spawn", "join_async", "join_async_spawn"):
+        is_async = "async" in mac
+        for opts in ("transpose_results(true)", "transpose_results(false)"):
+            for ds in ((1, 1), (2, 2), (1, 2), (2, 1, 3)):
+                for wrap in (False, True):
+                    if wrap and is_async:
+                        continue
+                    p = fp.build(mac, ds, wrap=wrap, init_ev=True)
+                    q = fp.build(mac, ds, wrap=wrap, init_ev=True)
+                    p.options = [opts]
+                    rb, _, _, r = fp.bodies(q)
+                    _, mb, d, _ = fp.bodies(p)
+                    progs.append(Prog("transpose-non-try/%s/%s/%s/%d" % (mac, opts, fp.pname(ds), wrap), rb, mb, fp.offset_rows(), "Full" if mac == "join" else "ProjSteps", meta={"macro": mac, "dsl": d, "ref": r}))
+    return progs
